@@ -413,6 +413,32 @@ def cover_fallback(chk: Check, repo: Repo) -> None:
 
 
 
+def own_telegram_marker(chk: Check, repo: Repo) -> None:
+    """Cover.set_position without a position address sends UP/DOWN and arms the auto stopper; when that telegram comes
+    back through process_group_write it must be recognised as the cover's own - once per telegram sent.  The marker is
+    therefore a count: incremented where the auto stopper is armed, decremented (not cleared) where an own telegram is
+    recognised, and the own-telegram branch leaves the travel calculator alone (set_position has set it up for the
+    requested position; retargeting it to the end position makes the device report the end position)."""
+    from ..astx import attr_writes
+    cm = "xknx.devices.cover"
+    ws = [w for w in attr_writes(repo, "_auto_stop_requested", include_mutators=False) if w.func.module.name == cm]
+    if not ws:
+        raise AnalysisError("Cover: own-telegram marker `_auto_stop_requested` not found")
+    arm = [w for w in ws if w.func.name == "_start_auto_stopper"]
+    ack = [w for w in ws if w.func.name == "process_group_write"]
+    counted = bool(arm) and all(w.kind == "augassign" and isinstance(w.stmt.op, ast.Add) for w in arm) and bool(ack) and all(w.kind == "augassign" and isinstance(w.stmt.op, ast.Sub) for w in ack)
+    pg = repo.func(cm, "Cover.process_group_write")
+    chk.unit(pg)
+    chk.ob("own-telegrams-are-counted", pg.site(), counted, "Cover marks its own up/down telegrams " + ("by a count (armed += 1, recognised -= 1): every telegram sent is recognised once" if counted else f"with {[canon(w.stmt) for w in arm + ack]}: of two set_position() calls before the first telegram comes back the second is taken for a bus command - the auto stopper is cancelled and the calculator sent to the end position"), key="cover|own-marker")
+    cfg = CFG(pg.node)
+    mf = cfg.must_facts()
+    own_nodes = [n for n in cfg.nodes if n.kind == "stmt" and n.ast is not None and any(a == "self._auto_stop_requested" and v for a, v in mf[n.id])]
+    retarget = [n for n in own_nodes if any(call_name(c) in ("self._start_position_update", "self.travelcalculator.start_travel", "self._process_updown_from_bus") for c in calls(n.ast))]
+    # ... and nothing after the branch retargets either: every _start_position_update in the function is under the negation
+    later = [n for n in cfg.nodes if n.kind == "stmt" and n.ast is not None and any(call_name(c) in ("self._start_position_update", "self.travelcalculator.start_travel") for c in calls(n.ast)) and not any(a == "self._auto_stop_requested" and v is False for a, v in mf[n.id]) and any(call_name(c2) == "self.updown.process" for n2 in cfg.nodes if n2.ast is not None and cfg.dominates(n2.id, n.id) for c2 in (calls(n2.ast) if n2.kind in ("stmt", "test") else []))]
+    chk.ob("own-telegram-does-not-retarget", pg.site(), bool(own_nodes) and not retarget and not later, f"process_group_write, own up/down telegram: {len(own_nodes)} statements under the marker, " + ("none starts a new travel" if not retarget and not later else "the travel calculator is sent to the end position although set_position() targeted the requested one"), key="cover|own-no-retarget")
+
+
 def climate(chk: Check, repo: Repo) -> None:
     cm = "xknx.devices.climate"
     ss = repo.func(cm, "Climate.set_setpoint_shift")
@@ -487,6 +513,7 @@ def run(chk: Check, repo: Repo) -> None:
     deferred_state(chk, repo)
     climate(chk, repo)
     cover_fallback(chk, repo)
+    own_telegram_marker(chk, repo)
     from .common_rules import override_implies_no_dpt_class
     override_implies_no_dpt_class(chk, repo)
     chk.rule("E7 finite loop-back tables by cell evaluation of the extracted conditions; affine-map extraction over Laurent polynomials and inverse check; truncation lint; ownership census of the state attribute; dominance of the base read over the shift write")
